@@ -515,15 +515,7 @@ def _r5(ctx):
             t = fold_str(w, n.args[0])
             if t and "box[" in t:
                 W = [(int(a_), int(b_)) for a_, b_ in re.findall(r"\{box\[(\d), ?(\d)\]", t)]
-    M = {}
-    for n in walk_no_nested(r):
-        if isinstance(n, ast.Assign) and dotted(n.targets[0]) == "unitcell_vectors" and isinstance(n.value, ast.Call) and n.value.args and isinstance(n.value.args[0], ast.List):
-            for ri, row in enumerate(n.value.args[0].elts):
-                if isinstance(row, ast.List):
-                    for ci, e in enumerate(row.elts):
-                        m = re.match(r"box\[(\d)\]", src(e))
-                        if m:
-                            M[(ri, ci)] = int(m.group(1))
+    M = _gro_reader_matrix(r)
     if len(W) != 9 or len(M) != 9:
         ctx.undecided("C01-R5", w, rel, cls, "gro box permutation", "writer order (%d) / reader matrix (%d) not recognised" % (len(W), len(M)))
     else:
@@ -681,39 +673,112 @@ def r4_box_lookahead(ctx):
 
 
 def _cell_record_unconditional(ctx, rel, hfn):
-    """The CRYST1 record is what carries the cell through a PDB file: whenever a cell is given, every normal path through _write_header
-    must print it.  Allowed on the way: early returns and enclosing conditions that test only the cell arguments (no cell -> no record)."""
-    cell = {"unitcell_lengths", "unitcell_angles"}
+    """The CRYST1 record is what carries the cell through a PDB file.  _write_header is evaluated (sa/tensym.py) with `print` recording what
+    goes to the file: a cell given -> exactly one CRYST1 line holding a, b, c, alpha, beta, gamma in that order (with and without the
+    metadata remark); no cell -> no record and no error; half a cell or a wrong number of values -> refused."""
+    from ..tensym import TenSym, Obj, FStr, Raised
+    from ..pysym import Unsupported as PUnsupported
+    from ..poly import Poly, Rat
+    q = "PDBTrajectoryFile._write_header"
+    L = [Rat(Poly.var("len%d" % k)) for k in range(3)]
+    A = [Rat(Poly.var("ang%d" % k)) for k in range(3)]
 
-    def has_cryst(node):
-        return any(isinstance(c, ast.Constant) and isinstance(c.value, str) and c.value.startswith("CRYST1") for c in ast.walk(node))
+    def run(lengths, angles, meta):
+        out = []
+        fobj = Obj(tag="file")
 
-    def names(test):
-        return {n.id for n in ast.walk(test) if isinstance(n, ast.Name)} | {a.attr for a in ast.walk(test) if isinstance(a, ast.Attribute)}
+        def prn(ev, call):
+            dest = next((ev.ex(k.value) for k in call.keywords if k.arg == "file"), None)
+            out.append((dest, [ev.ex(a_) for a_ in call.args]))
+        me = Obj(_mode="w", _file=fobj, _lenient=True)
+        ts = TenSym({"mdtraj": Obj(__version__="V", version=Obj(version="V")), "date": Obj(today=lambda: "D")}, models={"print": prn, "str": lambda ev, c: "S"})
+        ts.run_fn(hfn, self=me, unitcell_lengths=lengths, unitcell_angles=angles, write_metadata=meta)
+        return out, fobj
 
-    def returns(stmts):
-        return any(isinstance(c, ast.Return) for st in stmts for c in ast.walk(st))
-    bad = None
+    def cryst(out, fobj):
+        return [a_[0] for dest, a_ in out if dest is fobj and a_ and isinstance(a_[0], FStr) and a_[0].parts and isinstance(a_[0].parts[0], str) and a_[0].parts[0].startswith("CRYST1")]
+    for meta in (True, False):
+        desc = "a cell given (write_metadata=%s): one CRYST1 line with a, b, c, alpha, beta, gamma" % meta
+        try:
+            out, fobj = run(list(L), list(A), meta)
+            cr = cryst(out, fobj)
+            ok = len(cr) == 1 and len(cr[0].values()) == 6 and all(x == y for x, y in zip(cr[0].values(), L + A))
+            ctx.decide(ok, "C01-R4", hfn, rel, q, desc, "", ("%d CRYST1 lines are printed to the file" % len(cr)) if len(cr) != 1 else "the CRYST1 line holds %s" % (cr[0].values(),) +
+                       ": a trajectory saved that way comes back without / with another unit cell")
+        except Raised as e:
+            ctx.violated("C01-R4", hfn, rel, q, desc, "a complete cell is refused: %s" % e.exc)
+        except PUnsupported as e:
+            ctx.undecided("C01-R4", hfn, rel, q, desc, "not evaluable: %s" % e)
+    try:
+        out, fobj = run(None, None, True)
+        ctx.decide(not cryst(out, fobj), "C01-R4", hfn, rel, q, "no cell: no CRYST1 record, no error", "", "a CRYST1 record is written although no cell was given")
+    except Raised as e:
+        ctx.violated("C01-R4", hfn, rel, q, "no cell: no CRYST1 record, no error", "a trajectory without a cell is refused: %s" % e.exc)
+    except PUnsupported as e:
+        ctx.undecided("C01-R4", hfn, rel, q, "no cell: no CRYST1 record, no error", "not evaluable: %s" % e)
+    for what, lengths, angles in (("lengths without angles", list(L), None), ("angles without lengths", None, list(A)), ("two lengths", list(L[:2]), list(A)), ("four angles", list(L), list(A) + [A[0]])):
+        try:
+            out, fobj = run(lengths, angles, True)
+            cr = cryst(out, fobj)
+            ctx.decide(False, "C01-R4", hfn, rel, q, "%s: refused" % what, "", "%s is accepted (%d CRYST1 line(s) written): the record no longer describes a cell" % (what, len(cr)))
+        except Raised as e:
+            ctx.holds("C01-R4", hfn, rel, q, "%s: refused" % what, "raises %s" % (e.exc or "")[:50])
+        except PUnsupported as e:
+            ctx.undecided("C01-R4", hfn, rel, q, "%s: refused" % what, "not evaluable: %s" % e)
 
-    def visit(stmts):
-        nonlocal bad
-        for st in stmts:
-            if has_cryst(st):
-                if isinstance(st, ast.If):
-                    if not names(st.test) <= cell | {"None", "len"}:
-                        bad = (st, "the CRYST1 record is written only under `%s`" % src(st.test))
-                        return True
-                    return visit(st.body) or visit(st.orelse)
-                if isinstance(st, (ast.For, ast.While, ast.Try, ast.With)):
-                    bad = (st, "the CRYST1 record is written inside a %s" % type(st).__name__)
-                return True
-            if isinstance(st, ast.If) and (returns(st.body) or returns(st.orelse)) and not names(st.test) <= cell | {"None", "len"}:
-                bad = (st, "`if %s: ... return` leaves before the CRYST1 record although a cell was given" % src(st.test))
-                return True
-            if isinstance(st, ast.Return):
-                bad = (st, "an unconditional return precedes the CRYST1 record")
-                return True
-        return False
-    found = visit(hfn.body)
-    ctx.decide(found and bad is None, "C01-R4", bad[0] if bad else hfn, rel, "PDBTrajectoryFile._write_header", "CRYST1 is printed on every normal path once a cell is given", "",
-               (bad[1] if bad else "no CRYST1 print reached") + ": a trajectory saved that way comes back without its unit cell")
+
+def _gro_reader_matrix(r):
+    """{(row, column) of the 3x3 cell matrix the gro reader builds: index of the box-line token it puts there}.  The statements between the
+    tokenising of the box line (`... float(..) ... .split()`) and the 3x3 array are evaluated (sa/tensym.py) on nine symbolic tokens."""
+    from ..tensym import TenSym, Ten
+    from ..pysym import Unsupported as PUnsupported
+    from ..poly import Poly, Rat
+    stmts = [n for n in walk_no_nested(r) if isinstance(n, ast.Assign)]
+    # the 3x3 matrix: np.array([[..3..], [..3..], [..3..]])
+    mat = [n for n in stmts if isinstance(n.value, ast.Call) and (call_name(n.value) or "").split(".")[-1] in ("array", "asarray") and n.value.args
+           and isinstance(n.value.args[0], (ast.List, ast.Tuple)) and len(n.value.args[0].elts) == 3 and all(isinstance(e, (ast.List, ast.Tuple)) and len(e.elts) == 3 for e in n.value.args[0].elts)]
+    tok = [n for n in stmts if len(n.targets) == 1 and isinstance(n.targets[0], ast.Name) and any(isinstance(c, ast.Call) and isinstance(c.func, ast.Attribute) and c.func.attr == "split" for c in ast.walk(n.value))
+           and any(isinstance(c, ast.Name) and c.id == "float" for c in ast.walk(n.value))]
+    if len(mat) != 1:
+        return {}
+    mat = mat[0]
+    # the token vector may be split off first (`sline = line.split()` then a comprehension over it): take the last float-converting definition before the matrix
+    tok = [t for t in tok if t.lineno < mat.lineno]
+    if not tok:
+        conv = [n for n in stmts if n.lineno < mat.lineno and any(isinstance(c, ast.Name) and c.id == "float" for c in ast.walk(n.value)) and isinstance(n.targets[0], ast.Name)]
+        if not conv:
+            return {}
+        tok = conv
+    # of those, the one the matrix depends on (through the locals defined in between)
+    def tnames(n):
+        return {x.id for t in n.targets for x in ast.walk(t) if isinstance(x, ast.Name) and isinstance(x.ctx, ast.Store)}
+    need = {x.id for x in ast.walk(mat.value) if isinstance(x, ast.Name)}
+    for _ in range(6):
+        for n in stmts:
+            if n.lineno < mat.lineno and tnames(n) & need:
+                need |= {x.id for x in ast.walk(n.value) if isinstance(x, ast.Name)}
+    tok = [t for t in tok if t.targets[0].id in need]
+    if not tok:
+        return {}
+    tokvar = tok[-1].targets[0].id
+    between = [n for n in stmts if tok[-1].lineno < n.lineno <= mat.lineno and ((tnames(n) & need) or n is mat)]
+    syms = tuple(Rat(Poly.var("tok%d" % k)) for k in range(9))
+    ev = TenSym({tokvar: syms})
+    try:
+        for st in between:
+            try:
+                ev.st(st)
+            except PUnsupported:
+                if st is mat:
+                    raise
+        v = ev.env.get(mat.targets[0].id if isinstance(mat.targets[0], ast.Name) else None)
+    except PUnsupported:
+        return {}
+    if not (isinstance(v, Ten) and v.shape == (3, 3)):
+        return {}
+    M = {}
+    for k_, e in enumerate(v.data):
+        vs = e.vars()
+        if len(vs) == 1 and e == Rat(Poly.var(list(vs)[0])) and str(list(vs)[0]).startswith("tok"):
+            M[(k_ // 3, k_ % 3)] = int(str(list(vs)[0])[3:])
+    return M
